@@ -17,12 +17,11 @@
   the bytes), amounts are integers of the smallest unit, the signed external transaction kept in
   a tracker is abstracted to the amount the repo's parser reads from it (ParseLock / ParseRedeem /
   ParseErc20Lock / ParseERC20RedeemParams) and the currency it is booked in (0 = ETH, 1 = the
-  ERC20 token).  The model is the code that exists, including what looks wrong:
-    * mintTokens / mintERC20tokens credit the `Locker` named by the finality report that crosses
-      the threshold, not the tracker's ProcessOwner;
-    * runERC20Lock has no existence check at all: it overwrites an ongoing tracker and ignores the
-      passed store; runERC20Reddem does not look at the failed store;
+  ERC20 token).  The model is the code that exists (after the repairs 0a509b2: mint credits the
+  tracker's ProcessOwner, 9de5f06: runERC20Lock has runLock's existence checks, efdfa81:
+  runERC20Reddem consults all three stores like runRedeem), including what still looks wrong:
     * a failing ERC20 tracker is never saved as failed (the crossing vote is dropped);
+    * burnERC20Tokens looks the token up by `tx.To()` of the redeem transaction;
     * the supply-cap check happens at submission, not at mint.
   Where Go would panic the model returns `Res.panic` (negative VoteIndex, vote slice shorter than
   the witness list, a transition name that is not registered, a nil error dereferenced).
@@ -215,14 +214,16 @@ def lockEth (c : Cfg) (s : St) (pre : Nat) (locker : Addr) (name : Name) (amount
     ⟨{ s with failed := failed', ongoing := upsert s.ongoing name (newTracker .lock locker name amount false c.witnesses) },
       .ok "lock-created", []⟩
 
-/-- runERC20Lock (no existence check) -/
+/-- runERC20Lock (same existence checks as runLock) -/
 def lockErc (c : Cfg) (s : St) (pre : Nat) (locker : Addr) (name : Name) (amount : Nat) : Out :=
   if pre = 1 then failOut s "decode"
   else if pre = 2 then failOut s "token"
   else if pre ≠ 0 then ⟨s, .panic, []⟩          -- `"…" + err.Error()` with a nil err
   else if ¬ (balGet s.bal c.supply 1 + (amount : Int) ≤ c.tokCap) then failOut s "cap"
+  else if has s.ongoing name || has s.passed name then failOut s "exists"
   else
-    ⟨{ s with ongoing := upsert s.ongoing name (newTracker .lockERC locker name amount true c.witnesses) },
+    let failed' := if has s.failed name then aerase s.failed name else s.failed
+    ⟨{ s with failed := failed', ongoing := upsert s.ongoing name (newTracker .lockERC locker name amount true c.witnesses) },
       .ok "lockerc-created", []⟩
 
 /-- runRedeem -/
@@ -241,7 +242,7 @@ def redeemEth (c : Cfg) (s : St) (pre : Nat) (owner : Addr) (name : Name) (amoun
           ⟨{ s with bal := b2, ongoing := upsert s.ongoing name (newTracker .redeem owner name amount false c.witnesses) },
             .ok "redeem-created", [.debit name owner 0 amount]⟩
 
-/-- runERC20Reddem (the failed store is not consulted) -/
+/-- runERC20Reddem (all three stores are consulted, as in runRedeem) -/
 def redeemErc (c : Cfg) (s : St) (pre : Nat) (toTok : Bool) (owner : Addr) (name : Name) (amount : Nat) : Out :=
   if pre = 9 then ⟨s, .panic, []⟩
   else if pre ≠ 0 then failOut s "token"
@@ -252,7 +253,7 @@ def redeemErc (c : Cfg) (s : St) (pre : Nat) (toTok : Bool) (owner : Addr) (name
       match balSub b1 c.supply 1 amount with
       | none => failOut s "insufficient-supply"
       | some b2 =>
-        if has s.ongoing name || has s.passed name then failOut s "exists"
+        if has s.ongoing name || has s.failed name || has s.passed name then failOut s "exists"
         else
           ⟨{ s with bal := b2, ongoing := upsert s.ongoing name (newTracker .redeemERC owner name amount toTok c.witnesses) },
             .ok "redeemerc-created", [.debit name owner 1 amount]⟩
@@ -260,9 +261,10 @@ def redeemErc (c : Cfg) (s : St) (pre : Nat) (toTok : Bool) (owner : Addr) (name
 /-- `ctx.ETHTrackers.WithPrefixType(PrefixOngoing).Set(tracker)` -/
 def setOngoing (s : St) (t : Tracker) : St := { s with ongoing := upsert s.ongoing t.name t }
 
-/-- mintTokens / mintERC20tokens: credit the report's Locker, then the supply address, then Released -/
-def mint (c : Cfg) (s : St) (t : Tracker) (locker : Addr) : St :=
-  let b1 := balAdd s.bal locker t.typ.cur t.amount
+/-- mintTokens / mintERC20tokens: credit the tracker's ProcessOwner (the report's `Locker` field is
+    no longer read), then the supply address, then Released -/
+def mint (c : Cfg) (s : St) (t : Tracker) : St :=
+  let b1 := balAdd s.bal t.owner t.typ.cur t.amount
   let b2 := balAdd b1 c.supply t.typ.cur t.amount
   setOngoing { s with bal := b2 } { t with state := .released }
 
@@ -274,7 +276,7 @@ def refund (c : Cfg) (s : St) (t : Tracker) : St :=
   { s1 with bal := b2 }
 
 /-- runCheckFinality -/
-def report (c : Cfg) (s : St) (name : Name) (locker voter : Addr) (idx : Int) (okv : Bool) : Out :=
+def report (c : Cfg) (s : St) (name : Name) (_locker voter : Addr) (idx : Int) (okv : Bool) : Out :=
   match alookup name s.ongoing with
   | none => failOut s "no-tracker"
   | some t =>
@@ -287,9 +289,9 @@ def report (c : Cfg) (s : St) (name : Name) (locker voter : Addr) (idx : Int) (o
       | .ok t' =>
         if t'.finalized then
           match t'.typ with
-          | .lock => ⟨mint c s t' locker, .ok "minted", [.mint name locker 0 t'.amount]⟩
+          | .lock => ⟨mint c s t', .ok "minted", [.mint name t'.owner 0 t'.amount]⟩
           | .lockERC =>
-            if t'.toTok then ⟨mint c s t' locker, .ok "minted-erc", [.mint name locker 1 t'.amount]⟩
+            if t'.toTok then ⟨mint c s t', .ok "minted-erc", [.mint name t'.owner 1 t'.amount]⟩
             else failOut s "mint-failed"                 -- mintERC20tokens: GetToken fails
           | .redeem => ⟨setOngoing s { t' with state := .released }, .ok "burned", []⟩
           | .redeemERC =>
